@@ -13,6 +13,7 @@
 #include <sstream>
 #include <fstream>
 #include "C04_doc.hpp"
+#define bad doc::bad_
 using namespace GeographicLib; using namespace gv;
 
 static const double SENT = 7.25e77;
